@@ -16,7 +16,7 @@ RULE = ("12-tick histories over 3-5 cgroups (usage, file/anon split, memory.min/
         "modulate_swappiness, restored by the last write of the tick); classic mode: value == memory.current (start/restart) or 4 KiB "
         "aligned, > floor-4096 and <= ceiling unless floor > ceiling; the first write to a new incarnation is a start value; immediate "
         "backoff: amount <= max_probe*(usage-floor), only with memory and io `some` pressure below target and (swap_validation) effective "
-        "swap utilisation below swap_threshold, pokes reset to max within the tick. floor/ceiling recomputed from the files in exact "
+        "swap utilisation below swap_threshold, pokes reset to max within the tick. floor/ceiling recomputed from the files in exact (memory.stat as the kernel writes it: `file` includes shmem and mlocked pages, only active_file + inactive_file is reclaimable cache) "
         "arithmetic. non-trivial = >=3 limit/reclaim writes judged; distinct by scenario hash")
 ASSUMPTIONS = ["envelope check, not a model of the controller", "write(2) interposed; the simulated files keep what senpai wrote, as the kernel would"]
 INT64_MAX = (1 << 63) - 1
